@@ -100,11 +100,9 @@ def _(repo):
     if not m:
         raise Miss("push: need_sync branch not found")
     b = _norm(m.group(1))
-    if "if*next_p>=new_priority{*next_p=new_priority-1;}" in b:
-        return defN("det_lower_next", 1)
-    if "next_p" in b or "next_priority" in b:
-        raise Miss("push/need_sync: next_priority is touched in an unknown way")
-    return defN("det_lower_next", 0)
+    # 1 only for the exact statement the model transcribes; anything else (block removed or rewritten) is 0, and
+    # singlefile_script_wf, which is proved for current_rule = (tok rule 0, lowering on), stops compiling
+    return defN("det_lower_next", 1 if "if*next_p>=new_priority{*next_p=new_priority-1;}" in b else 0)
 
 
 # the need_sync condition and the two decrements
